@@ -215,6 +215,7 @@ func runStreamWith(doc []byte, rs *ReaderScn, sharedIP *commonmark.InlineParser)
 		}
 	}()
 	p := commonmark.NewBlockParser(rd.asReader())
+	rd.afterConstruct()
 	var comp *companion
 	if sharedIP == nil {
 		comp = newCompanion(rs.Companion)
